@@ -53,15 +53,15 @@ def collect_inline_obs(L, mmax, tier, to, shapes=None):
                    "the registered patterns are listed in obligations.py), concrete byte values, no pending run, concrete CRC start; capacity M symbolic 1..%d, "
                    "fill level and block contents symbolic" % (L, format(shape, "0%db" % (L - 1)), mmax),
             outside=["a run reaching the 259 limit inside one call (needs >= 259 bytes in one buffer; the limit on the resumed path is covered by collect_len*)"])
-collect_inline_obs(5, 8, "quick", 300)
-collect_inline_obs(6, 9, "quick", 300, shapes=[0x0f, 0x1f])            # 5 and 6 equal bytes (then a different one): run loop taken more than once
-collect_inline_obs(7, 10, "quick", 300, shapes=[0x1f, 0x3f, 0x2f])
+collect_inline_obs(5, 8, "quick", 900)
+collect_inline_obs(6, 9, "quick", 900, shapes=[0x0f, 0x1f])            # 5 and 6 equal bytes (then a different one): run loop taken more than once
+collect_inline_obs(7, 10, "quick", 900, shapes=[0x1f, 0x3f, 0x2f])
 collect_inline_obs(7, 10, "thorough", 600, shapes=[x for x in range(64) if x not in (0x1f, 0x3f, 0x2f)])
-collect_obs(0, 9, "quick", 300, False)
-collect_obs(1, 9, "quick", 300, False)
-collect_obs(2, 6, "quick", 600, True)
+collect_obs(0, 9, "quick", 900, False)
+collect_obs(1, 9, "quick", 900, False)
+collect_obs(2, 6, "quick", 1200, True)
 collect_obs(2, 9, "thorough", 1200, True)
-collect_obs(3, 6, "thorough", 3000, True)
+# collect_obs(3, 6, ...): a 3-byte buffer from an arbitrary pre-state does not finish within 50 min (measured twice); not registered
 
 for nw, tier, to in ((2, "quick", 600), (3, "thorough", 3000), (4, "thorough", 3000)):
     add("scan_nw%d" % nw, "h_scan.c", "h_scan", {"C14": tier}, defines=["-DNW=%d" % nw],
